@@ -1449,3 +1449,40 @@ Theorem C16_zsh_positionals_example :
   ZshPositionals.pos_card false (ZshPositionals.zp_arg [102; 105; 108; 101; 115] 5, ad0) = [42; 58].
 Proof. exact ZshPositionals.pos_kept_example. Qed.
 Print Assumptions C16_zsh_positionals_example.
+
+(** the same for SUBCOMMAND words: for every path of the user's tree to [n], every subcommand [sc] the user gave [n] and every
+    name or visible alias [w] of [sc]: the bash arm of the path has [w] in its [opts]; the zsh file has the [_<bin>_commands]
+    function of the addressed command (bin name = [bin n1 .. nk]) and its list has the entry ['w:about']; fish (paths of at most
+    two words) offers [ -a "w"] on a line starting with the path's condition; the PowerShell / elvish block keyed by the path
+    has the entry of [w]; nushell declares the block [export extern "bin n1 .. nk name"] of the subcommand -- under its NAME
+    (visible aliases of subcommands are not written by nushell: the recorded finding nushell-subcommand-aliases) *)
+Theorem C16_six_generators_mention_subcommands : forall up bl c t d bin b ws ns n sc w,
+  BuildLinked.nb c = true -> build (set_bin_name c bin) = Some b -> mangle_safe b bin ->
+  reach c ws ns n -> In sc (c_subs n) -> In w (get_name_and_visible_aliases sc) ->
+  CrossShell.bash_mentions c bin ns w /\
+  CrossShell.zsh_lists_subcommand bl c d bin ns w /\
+  ((List.length ws <= 2)%nat -> CrossShell.fish_offers_subcommand c d bin ws w) /\
+  CrossShell.powershell_mentions up c t bin ws (PowershellProofs.ps_sub w) /\
+  CrossShell.elvish_mentions c t bin ws (ElvishProofs.el_sub w) /\
+  CrossShell.nushell_declares c d bin (ns ++ [c_name sc]).
+Proof. exact CrossShell.six_generators_mention_subcommands. Qed.
+Print Assumptions C16_six_generators_mention_subcommands.
+
+Theorem C16_six_subcommand_mentions_meaning : forall bl c d bin ws ns w,
+  (CrossShell.zsh_lists_subcommand bl c d bin ns w <->
+     exists s nd n' about,
+       generate_zsh bl c d bin = Some s /\ bin_or_default n' = bin ++ join_with [32%N] ns /\
+       sublist (zrender (commands_function (bin_or_default n') (subcommands_of n' nd))) s /\
+       sublist (describe_entry about w) (subcommands_of n' nd)) /\
+  (CrossShell.fish_offers_subcommand c d bin ws w <->
+     exists b n' lines basic line,
+       build (set_bin_name c bin) = Some b /\ generate_fish c d bin = fish_script b (dbuild (set_bin_name c bin) d) /\
+       fish_lines b (dbuild (set_bin_name c bin) d) = Some lines /\
+       basic_template bin (fish_needs bin b) (fish_using bin b) ws n' = Some basic /\
+       In line lines /\ hd_error line = Some (Fx (sub_template basic n')) /\ In (sub_word w) line) /\
+  (CrossShell.nushell_declares c d bin ns <->
+     exists s blk pre post,
+       NushellModel.generate_nushell c d bin = Some s /\ s = NushellProofs.nrender (pre ++ blk ++ post) /\
+       In (NushellProofs.NFx (NushellProofs.extern_line (negb (is_nil ns)) (bin ++ join_with [32%N] ns))) blk).
+Proof. exact CrossShell.subcommand_mentions_meaning. Qed.
+Print Assumptions C16_six_subcommand_mentions_meaning.
